@@ -164,8 +164,18 @@ def check(rep, tier, seed):
     rep.assumptions += ["a Vec iterator yields exactly len() elements", "limits are >= 1", "the file lists are sorted by name = by age (timestamps in the names)"]
     rep.outside_claim += ["the file system itself, concurrent writers, files created by other programs in the same directories"]
     rep.trusted += ["mirsym", "z3"]
+    import p_c19_names
+    p_c19_names.check_names(rep, ctx, sctx)
     import batteries
     batteries.confirm(rep, "C19")
+    ub = rep.extra.get("unit_battery") or {}
+    if ub.get("ran") and not ub.get("failed"):
+        # a name component the analysis could not read (free in the query) may well be constant in fact: when the native histories
+        # (mixed-case names, rule sets of every mode in both directions) all pass, such a model is inconclusive, not an alarm
+        for q in rep.queries:
+            if q.status == "violated" and q.reproduced is None and (q.key or "").startswith("C19.names.") and any(k.startswith("unk") for k in (q.model or {})):
+                q.reproduced = False
+                q.detail += " || the model uses a component the analysis could not read and the native histories pass: inconclusive"
 
 
 def _limit_from_pc(r):
